@@ -175,3 +175,29 @@ def unescape_z3(s):
     """z3 prints non-printable characters as \\u{..}"""
     import re
     return re.sub(r"\\u\{([0-9a-fA-F]+)\}", lambda m: chr(int(m.group(1), 16)), s)
+
+
+# ---------------------------------------------------------------- frame watch
+def install_frame_watch(I, log):
+    """Every heap write performed anywhere during the symbolic run - also inside loop bodies that are cut at an invariant,
+    whose states never reach a postcondition - is checked when it happens: a write to an object that the function under
+    contract did not allocate is recorded as (description, path condition at that moment)."""
+
+    def wrap(name, pos):
+        base = getattr(I, name)
+
+        def w(st, *args, **kw):
+            before = {id(s): None for s in ()}
+            pre_written = set(st.written)
+            rs = base(st, *args, **kw)
+            for s, _v in rs:
+                for (rid, field) in s.written - pre_written:
+                    if rid not in s.allocated:
+                        node = args[-1] if args and hasattr(args[-1], "lineno") else kw.get("node")
+                        log.append((f"{name} on object #{rid} (line {getattr(node, 'lineno', '?')})", list(s.pc)))
+            return rs
+
+        setattr(I, name, w)
+
+    for nm in ("setitem", "delitem", "setattr", "call_method"):
+        wrap(nm, 0)
